@@ -43,6 +43,13 @@ def no_calls(e):
     return not any(isinstance(x, (ast.Call, ast.Await, ast.Yield, ast.NamedExpr)) for x in ast.walk(e))
 
 
+def indent_line(lines, node):
+    """node.lineno when the node starts its line (after indentation), else -1"""
+    l = lines[node.lineno - 1]
+    return node.lineno if len(l) - len(l.lstrip()) == node.col_offset and node.lineno == node.end_lineno or \
+        (len(l) - len(l.lstrip()) == node.col_offset) else -1
+
+
 def indent_of(lines, node):
     l = lines[node.lineno - 1]
     return l[:len(l) - len(l.lstrip())]
@@ -59,13 +66,21 @@ def block_text(lines, stmts, ind):
 
 
 def signatures(root=None):
-    from ..build import Analysis
-    return Analysis(root or ROOT)
+    """The program as written (not normalised): the rewrites are spliced into the source text by the positions of these nodes."""
+    from ..loader import Program
+    from ..resolve import Resolver
+
+    class _Raw:
+        pass
+    raw = _Raw()
+    raw.prog = Program(root or ROOT)
+    raw.res = Resolver(raw.prog)
+    return raw
 
 
 def variants(kinds, root=None, ana=None):
     root = root or ROOT
-    ana = ana or signatures(root)
+    ana = signatures(root)          # always the raw program: an Analysis passed in has normalised syntax trees
     FLIP = {ast.Lt: ">", ast.Gt: "<", ast.LtE: ">=", ast.GtE: "<=", ast.Eq: "==", ast.NotEq: "!="}
     for mod in sorted(ana.prog.modules.values(), key=lambda m: m.relpath):
         path = mod.path
@@ -114,6 +129,72 @@ def variants(kinds, root=None, ana=None):
                             if kwn == want:
                                 parts = [seg(lines, a) for a in n.args] + [seg(lines, k.value) for k in n.keywords]
                                 yield ("posargs", site, rel, splice(src, n, f"{fn_txt}({', '.join(parts)})"))
+                # ---- second generation (patterns met in the sub-agents' small edits) ----
+                if "unpack" in kinds and isinstance(n, ast.Assign) and len(n.targets) == 1 and isinstance(n.targets[0], ast.Tuple) \
+                        and all(isinstance(e, ast.Name) for e in n.targets[0].elts) and isinstance(n.value, ast.Call) and n.lineno == indent_line(lines, n):
+                    ind = indent_of(lines, n)
+                    parts = [f"pair__ = {seg(lines, n.value)}"] + [f"{e.id} = pair__[{k}]" for k, e in enumerate(n.targets[0].elts)]
+                    yield ("unpack", site, rel, splice(src, n, ("\n" + ind).join(parts)))
+                if "toifexp" in kinds and isinstance(n, ast.If) and len(n.body) == 1 and len(n.orelse) == 1 \
+                        and all(isinstance(s_, ast.Assign) and len(s_.targets) == 1 and isinstance(s_.targets[0], ast.Name) for s_ in (n.body[0], n.orelse[0])) \
+                        and n.body[0].targets[0].id == n.orelse[0].targets[0].id and lines[n.lineno - 1][n.col_offset:].startswith("if "):
+                    v = n.body[0].targets[0].id
+                    txt = f"{v} = ({seg(lines, n.body[0].value)}) if ({seg(lines, n.test)}) else ({seg(lines, n.orelse[0].value)})"
+                    yield ("toifexp", site, rel, splice(src, n, txt))
+                if "defaultelse" in kinds and isinstance(n, ast.If) and len(n.body) == 1 and len(n.orelse) == 1 and isinstance(n.orelse[0], ast.Assign) \
+                        and isinstance(n.body[0], ast.Assign) and len(n.body[0].targets) == 1 and isinstance(n.body[0].targets[0], ast.Name) \
+                        and len(n.orelse[0].targets) == 1 and isinstance(n.orelse[0].targets[0], ast.Name) and n.orelse[0].targets[0].id == n.body[0].targets[0].id \
+                        and isinstance(n.orelse[0].value, (ast.Constant, ast.Name)) and lines[n.lineno - 1][n.col_offset:].startswith("if ") \
+                        and not any(isinstance(x, ast.Name) and x.id == n.body[0].targets[0].id for x in ast.walk(n.test)):
+                    ind = indent_of(lines, n)
+                    v = n.body[0].targets[0].id
+                    txt = f"{v} = {seg(lines, n.orelse[0].value)}\n{ind}if {seg(lines, n.test)}:\n{ind}    {v} = {seg(lines, n.body[0].value)}"
+                    yield ("defaultelse", site, rel, splice(src, n, txt))
+                if isinstance(n, ast.For) and isinstance(n.target, ast.Name) and isinstance(n.iter, ast.Call) and isinstance(n.iter.func, ast.Name) \
+                        and n.iter.func.id == "range" and len(n.iter.args) == 1 and not n.orelse and n.lineno != n.body[0].lineno:
+                    v = n.target.id
+                    stores = [x for st in n.body for x in ast.walk(st) if isinstance(x, ast.Name) and x.id == v and not isinstance(x.ctx, ast.Load)]
+                    later = [x for x in ast.walk(fn) if isinstance(x, ast.Name) and x.id == v and isinstance(x.ctx, ast.Load) and x.lineno > n.end_lineno]
+                    jumps = any(isinstance(x, ast.Continue) for st in n.body for x in ast.walk(st))
+                    if not stores and not later:
+                        ind = indent_of(lines, n)
+                        inner = indent_of(lines, n.body[0])
+                        hi = seg(lines, n.iter.args[0])
+                        if "rangeshift" in kinds:
+                            body_txt = "\n".join(lines[n.body[0].lineno - 1:n.end_lineno])
+                            # replace loads of v by (v - 1) inside the body, back to front
+                            loads = sorted([x for st in n.body for x in ast.walk(st) if isinstance(x, ast.Name) and x.id == v and isinstance(x.ctx, ast.Load)],
+                                           key=lambda x: (x.lineno, x.col_offset), reverse=True)
+                            new_src = src
+                            ok_ = True
+                            for x in loads:
+                                new_src = splice(new_src, x, f"({v} - 1)")
+                            head = type("N", (), {"lineno": n.iter.lineno, "col_offset": n.iter.col_offset, "end_lineno": n.iter.end_lineno, "end_col_offset": n.iter.end_col_offset})
+                            new_src = splice(new_src, head, f"range(1, ({hi}) + 1)")
+                            yield ("rangeshift", site, rel, new_src)
+                        hi_names = {x.id for x in ast.walk(n.iter.args[0]) if isinstance(x, ast.Name)}
+                        hi_stable = no_calls(n.iter.args[0]) and not any(
+                            isinstance(x, ast.Name) and x.id in hi_names and not isinstance(x.ctx, ast.Load) for st in n.body for x in ast.walk(st)) and not any(
+                            isinstance(x, ast.Call) and isinstance(x.func, ast.Attribute) and isinstance(x.func.value, ast.Name) and x.func.value.id in hi_names
+                            for st in n.body for x in ast.walk(st))
+                        if "for2while" in kinds and not jumps and n.iter.lineno == n.iter.end_lineno and hi_stable:
+                            body_txt = block_text(lines, n.body, inner)
+                            txt = f"{v} = 0\n{ind}while {v} < ({hi}):\n{body_txt}\n{inner}{v} += 1"
+                            whole = type("N", (), {"lineno": n.lineno, "col_offset": n.col_offset, "end_lineno": n.end_lineno, "end_col_offset": n.end_col_offset})
+                            yield ("for2while", site, rel, splice(src, whole, txt))
+                if "comp2loop" in kinds and isinstance(n, ast.Assign) and len(n.targets) == 1 and isinstance(n.targets[0], ast.Name) and isinstance(n.value, ast.ListComp) \
+                        and len(n.value.generators) == 1 and not n.value.generators[0].ifs and not n.value.generators[0].is_async:
+                    g = n.value.generators[0]
+                    tgt = n.targets[0].id
+                    names_in = {x.id for x in ast.walk(n.value) if isinstance(x, ast.Name)}
+                    if tgt not in names_in:
+                        ind = indent_of(lines, n)
+                        txt = f"{tgt} = []\n{ind}for {seg(lines, g.target)} in {seg(lines, g.iter)}:\n{ind}    {tgt}.append({seg(lines, n.value.elt)})"
+                        yield ("comp2loop", site, rel, splice(src, n, txt))
+                if "kwshuffle" in kinds and isinstance(n, ast.Call) and len(n.keywords) >= 2 and all(k.arg is not None for k in n.keywords) \
+                        and all(no_calls(k.value) for k in n.keywords) and not any(isinstance(a, ast.Starred) for a in n.args):
+                    parts = [seg(lines, a) for a in n.args] + [f"{k.arg}={seg(lines, k.value)}" for k in reversed(n.keywords)]
+                    yield ("kwshuffle", site, rel, splice(src, n, f"{seg(lines, n.func)}({', '.join(parts)})"))
                 if "rettmp" in kinds and isinstance(n, ast.Return) and n.value is not None and not isinstance(n.value, ast.Name):
                     ind = indent_of(lines, n)
                     if lines[n.lineno - 1].strip().startswith("return"):
@@ -172,7 +253,8 @@ def analyse(job):
         shutil.rmtree(tmp, ignore_errors=True)
 
 
-ALL_KINDS = ("flip", "negif", "ifexp", "kwargs", "posargs", "rettmp", "acc", "assigntmp", "nop")
+ALL_KINDS = ("flip", "negif", "ifexp", "kwargs", "posargs", "rettmp", "acc", "assigntmp", "nop",
+             "unpack", "toifexp", "defaultelse", "rangeshift", "for2while", "comp2loop", "kwshuffle")
 
 
 def run(root, pid, ana=None, jobs=16, stride=4):
